@@ -164,3 +164,30 @@ func sameAddr(a, b ssa.Value) bool {
 
 // FlowsFrom reports whether src may flow into v.
 func FlowsFrom(v, src ssa.Value) bool { return BackwardReach(v)[src] }
+
+// Unspill looks through a parameter that go/ssa spilled into an allocation because a closure
+// captures it: `t0 = new T; *t0 = param; ...; t5 = *t0` yields param for t5.
+func Unspill(v ssa.Value) ssa.Value {
+	u, ok := v.(*ssa.UnOp)
+	if !ok || u.Op != token.MUL {
+		return v
+	}
+	a, ok := u.X.(*ssa.Alloc)
+	if !ok {
+		return v
+	}
+	var only ssa.Value
+	n := 0
+	for _, r := range *a.Referrers() {
+		if st, ok := r.(*ssa.Store); ok && st.Addr == ssa.Value(a) {
+			n++
+			only = st.Val
+		}
+	}
+	if n == 1 {
+		if p, ok := only.(*ssa.Parameter); ok {
+			return p
+		}
+	}
+	return v
+}
